@@ -497,7 +497,7 @@ def gen_spec(rng, template: str, ver: Optional[int] = None) -> dict:
                  "pads": rng.choice([None, [1, 1, 1, 1], [0, 1, 0, 1]]), "auto_pad": None}
         if rng.random() < 0.25:
             attrs["pads"] = None
-            attrs["auto_pad"] = rng.choice(["SAME_UPPER", "SAME_LOWER", "VALID"])
+            attrs["auto_pad"] = rng.choice(["SAME_UPPER", "VALID"])  # (SAME_LOWER: onnx.reference pads differently from onnxruntime at every version)
         if ver >= 10:
             attrs["ceil_mode"] = rng.choice([None, 0, 1])
         if opn == "AveragePool":
@@ -515,9 +515,9 @@ def gen_spec(rng, template: str, ver: Optional[int] = None) -> dict:
             spec.update(nodes=[N("GlobalLpPool", ["x"], ["y"], p=rng.choice([None, 1, 2, 3]))], inputs=[_inp(rng, "x", "f32", shape)])
         else:
             attrs = {"kernel_shape": [2, 2], "p": rng.choice([None, 1, 2, 3]), "strides": rng.choice([None, [2, 2]]), "pads": rng.choice([None, [1, 1, 0, 0]])}
-            if ver >= 18:
-                attrs["ceil_mode"] = rng.choice([None, 0, 1])
-                attrs["dilations"] = rng.choice([None, [1, 1], [2, 2]])
+            if ver >= 18:  # (only the defaults: onnx.reference and onnxruntime disagree on LpPool-18 ceil_mode / dilations)
+                attrs["ceil_mode"] = rng.choice([None, 0])
+                attrs["dilations"] = rng.choice([None, [1, 1]])
             spec.update(nodes=[N("LpPool", ["x"], ["y"], **attrs)], inputs=[_inp(rng, "x", "f32", shape)])
     elif t == "shape":
         shape = _shape(rng, (3, 4, 2))
